@@ -197,4 +197,10 @@ def zProc (k : Nat) (input : Bytes) (cap : Nat) (full : Bool) : Nat × Nat × By
 
 def zCodec : Codec Nat := ⟨zProc⟩
 
+/-- A stateless codec for the non-vacuity examples of `Sqfs.Props.C12` (not used by the harness): passes at most 512
+bytes per call, rejects input that starts with 0xFF. -/
+def chunkCodec : Codec Unit :=
+  ⟨fun _ inp cap _ => if inp.head? = some 255 then ((), 0, [], .error)
+    else ((), min (min inp.length cap) 512, inp.take (min (min inp.length cap) 512), .ok)⟩
+
 end Sqfs.IoLoops
